@@ -161,6 +161,10 @@ def edge_string_values():
     # globals whose module or name holds a newline (only STACK_GLOBAL can carry them: documented error below protocol 4)
     for m, n in ((b"m", b"a\n."), (b"m\n", b"n"), (b"m", b"\n"), (b"\nm", b"n\n"), (b"mod", b"a\nb"), (b"m", b"n")):
         out += [("C", m, n), ("c", m, n, [("I", 1)]), ("t", [("C", m, n), ("I", 2)])]
+    # globals whose module or name is as long as / longer than a one-byte length field can say (dots inside: a cut name ends in a STOP)
+    for sz in (255, 256, 257, 259, 300, 65535, 65536):
+        long = (b"pkg.sub." * (sz // 8 + 1))[:sz]
+        out += [("C", long, b"n"), ("C", b"m", long), ("c", long, long, [("I", 1)])]
     return out
 
 
